@@ -105,3 +105,27 @@ def check(ctx):
             execs = b.calls_to(ETC, f"{EX}::process_l2_txs", f"{EX}::produce_mint_tx", f"{EX}::process_l1_txs")
             ctx.add(f"5.{fn}-changes-taken-last", "ORDER", all(b.path([ic.target], [c.bb]) is None for c in execs) and bool(execs),
                     f"{fn}: the change set is taken after all execution", sites=[ic.where()], site_key=fn + ":last")
+
+    # -- 6. a pre-checked transaction is reused only if it was checked under the block's consensus parameters --
+    with ctx.clause("6.pre-checked-reuse"):
+        b = F.unit(f"{EX}::convert_maybe_checked_tx_to_checked_tx").root
+        icb = [c for c in b.calls if c.bb in b.live and c.name == "into_checked_basic"]
+        ctx.expect_sites("6.re-check-sites", icb, exactly=2, what="into_checked_basic (raw transaction arm, stale pre-checked arm)")
+        for i, c in enumerate(sorted(icb, key=lambda c: c.bb)):
+            ctx.arg_origin(f"6.re-check-{i}-under-block-parameters", c, 2, f"field:{EX}.consensus_params", depth=1)
+            ctx.arg_origin(f"6.re-check-{i}-at-block-height", c, 1, "call:*::PartialBlockHeader::height", depth=2)
+        eq = ctx.cmp_tests(b, "Eq", lhs="field:fuel_core_types::blockchain::header::PartialBlockHeader.consensus_parameters_version", rhs="field:1", depth=1) or \
+            ctx.cmp_tests(b, "Eq", lhs="field:consensus_parameters_version", rhs="field:1", depth=1)
+        ctx.expect_sites("6.version-test", [f"bb{sw.bb}" for sw, _ in eq], exactly=1, what="`header.consensus_parameters_version == checked_version` (equality)")
+        same = set()
+        for sw, pol in eq:
+            for lab in sw.edges_for_truth(True if pol else False):
+                same.add((sw.bb, lab))
+        oks = ctx.ok_return_blocks(b) if hasattr(ctx, "ok_return_blocks") else b.return_blocks()
+        p = b.path([0], b.return_blocks(), cut_blocks=[c.bb for c in icb] + list(b.error_blocks()), cut_edges=same) if same else [0]
+        ctx.add("6.reuse-only-for-same-parameters-version", "GUARD", p is None,
+                "a transaction reaches execution without a re-check only on the edge where its checked version equals the block's consensus parameters version "
+                "(validation always re-checks raw transactions, so any other reuse lets production accept what validation rejects)",
+                sites=[f"bb{sw.bb}" for sw, _ in eq], site_key="reuse", witness=None if p is None else {"path": b.describe_path(p)})
+        gt = ctx.cmp_tests(b, "Gt", lhs="call:*::PartialBlockHeader::height", rhs="call:*::expiration", depth=1)
+        ctx.test_leads_to_error("6.expired-pre-checked-rejects", b, gt, truth=True, detail="an expired pre-checked transaction is refused")
